@@ -361,7 +361,9 @@ def ops_strategy():
         st.tuples(st.just("bad_value"), sel, sel, sel, st.sampled_from(["over", "neg", "type"]),
                   st.integers(0, len(BAD_VALUES) - 1)),
         st.tuples(st.just("bad_new"), st.sampled_from(["bits0", "bits-1", "bitsfloat", "bitsstr", "bitsnone",
-                                                       "dataneg", "dataover", "bytesover", "frame-over", "frame-fit"]), width,
+                                                       "dataneg", "dataover", "bytesover", "frame-over", "frame-fit",
+                                                       "data-none", "data-float0", "data-float", "data-str0", "data-str",
+                                                       "data-complex0", "data-decimal0", "data-fraction0", "data-object"]), width,
                   st.sampled_from(["Frame", "ForwardFrame"])),
         st.tuples(st.just("bad_newback"), st.sampled_from(["neg1", "neg", "over", "over2", "bytes2", "bytes0", "float",
                                                            "str", "none"]), sel, st.booleans()),
@@ -620,6 +622,17 @@ def _interp(ops):
                         if what == "frame-over" or len(g) != w or not 0 <= n_g < (1 << w):
                             out.append(("C05:accepted:constructor-" + what, "%s: %s(%d, Frame(%d, %#x)) was accepted: width %d value %#x"
                                         % (where, cls.__name__, w, w + 8, src.as_integer, len(g), n_g)))
+                    continue
+                if what.startswith("data-"):
+                    # initial data that is neither an integer nor a byte sequence - also when it is falsy
+                    import decimal
+                    import fractions
+                    bad = {"data-none": None, "data-float0": 0.0, "data-float": 1.5, "data-str0": "", "data-str": "1",
+                           "data-complex0": 0j, "data-decimal0": decimal.Decimal(0), "data-fraction0": fractions.Fraction(0),
+                           "data-object": object()}[what]
+                    cls = getattr(frame, op[3]) if len(op) > 3 else frame.Frame
+                    expect_raise(lambda: cls(w, bad), FAMILY, None, None, out, where, "constructor-" + what)
+                    expect_raise(lambda: frame.BackwardFrame(bad), FAMILY, None, None, out, where, "constructor-backward-" + what)
                     continue
                 args = {
                     "bits0": (0, 0), "bits-1": (-1, 0), "bitsfloat": (float(w), 0), "bitsstr": (str(w), 0),
